@@ -9,7 +9,8 @@ listed finding is still printed as KNOWN-FINDING.  Keys are (rule id, key prefix
 SHAPE_KEYS: set[tuple[str, str]] = {
     ("C07.R3", "assert"),
     ("C09.R1", "unknown-form"),
-    ("C09.R2", "base-mismatch"),
+    ("C09.R2", "base-guard-unrecognised"),
+    ("C09.R2", "no-merge-result"),
     ("C09.R2", "merge-bookkeeping"),
     ("C09.R2", "unknown-result"),
     ("C10.R1", "count-not-checked"),
